@@ -2,10 +2,31 @@
 import os
 from vlib import common as C, msglib as L
 
+MANIFEST = {
+    "text": "Lean theorems: queue_abs_invariant (for every sequence of coap_insert_node / coap_pop_next / coap_remove_from_queue / "
+            "cancel / backward coap_adjust_basetime operations the delta-time send queue represents the sorted multiset of absolute "
+            "deadlines and each operation commutes with the absolute-deadline specification S), calc_timeout_bounds (+ the uint16 wrap "
+            "witness), wait_le_earliest, retransmit_step / giveup_step / due_head_retransmitted about the transcription M of "
+            "coap_wait_ack, coap_retransmit and coap_io_prepare_io_lkd; retransmit_schedule (every transmission at t0 + (2^k-1)T, "
+            "k <= MAX_RETRANSMIT), single_outcome (sends = outcomes + pending per message), no_tx_without_pending, due_fires for every "
+            "event sequence of the timer system S; the M-level end-to-end schedule is proved for one message on an idle endpoint "
+            "(m_retransmit_schedule_partial, m_solo_giveup/acked/rst/quiet_after).  M is tied to the compiled code on every run by exact trace "
+            "equality on a virtual-time simulation harness (transmissions with timestamps and byte identity, NACKs, con_active, the whole "
+            "send queue with absolute deadlines after every event), incl. every drop subset of the first 10 datagrams of an exchange.",
+    "note": "Trusted: Lean kernel (+ propext, Classical.choice, Quot.sound), harness/sim_core.h + msg.c (--wrap clock/network), the scenario "
+            "interpreter Driver/Msg.lean, generators/oracles, the hand transcription M (checked on the cases run only).  The transfer of the "
+            "S-level schedule/outcome theorems to M is proved per operation and end-to-end for a single message; for several messages it "
+            "rests on those step theorems plus the differential runs.  coap_adjust_basetime moved forward is an open finding "
+            "(adjust_commutes_partial + adjust_forward_witness).  Real-time behaviour of epoll_wait is not modelled.",
+    "design_ref": "DESIGN.md §4 C06, design/C06.md",
+}
 LEAN_MODULES = ["CoapVerif.Props.C06"]
 NAMESPACE = "Coap.C06"
-REQUIRED_THEOREMS = ["queue_abs_invariant", "calc_timeout_bounds", "calc_timeout_wraps", "wait_le_earliest",
-                     "retransmit_schedule", "single_outcome"]
+REQUIRED_THEOREMS = ["queue_abs_invariant", "insert_commutes", "pop_commutes", "remove_commutes", "cancel_commutes", "enqueue_commutes",
+                     "adjust_forward_witness", "calc_timeout_bounds", "calc_timeout_wraps", "qfix_approx", "wait_le_earliest",
+                     "retransmit_step", "giveup_step", "due_head_retransmitted", "no_early_retransmit", "base_le_now_invariant",
+                     "retransmit_schedule", "single_outcome", "no_tx_without_pending", "queue_empty_all_concluded", "due_fires",
+                     "m_solo_giveup", "m_solo_acked", "m_solo_rst"]
 RULE = ("scenario lines for harness/msg.c (one real client context, 1-3 UDP sessions sharing the send queue, virtual clock, "
         "scripted peer): every drop subset of the first 10 datagrams of an exchange (5 transmissions x 5 ACKs) for several "
         "parameter sets and ACK delays placed just before / at / after each timer deadline; random multi-message, "
@@ -67,7 +88,10 @@ def gen_sq(rng):
             s, mid = rng.choice(live) if rng.random() < 0.8 else (rng.randrange(3), rng.randrange(1, 9))
             ops.append("r:%d:%d" % (s, mid))
         elif c < 0.86:
-            base = max(0, base - rng.choice([0, 1, 10, 500]))       # backward (or no) move of the reference time
+            if rng.random() < 0.25:
+                base = base + rng.choice([1, 5, 10, 15, 100, 5000])     # forward: open finding unless nothing survives
+            else:
+                base = max(0, base - rng.choice([0, 1, 10, 500]))       # backward (or no) move of the reference time
             ops.append("j:%d" % base)
         elif c < 0.93:
             ops.append("c:%d" % rng.randrange(3))
@@ -92,7 +116,7 @@ def generate(ctx, escalate=False):
     rng = ctx.rng
     th = ctx.thorough()
     out = exhaustive(ctx, L.PARAM_SETS[:5] if th else L.PARAM_SETS[:2])
-    n = 200000 if th else 2500
+    n = 200000 if th else 6000
     if escalate:
         n *= 3
     out += [L.gen_scenario(rng, "c06") for _ in range(n)]
